@@ -168,6 +168,31 @@ pub fn prog_has_stalls(p: &Program) -> bool {
         })
 }
 
+/// Finding F4's signature for a thread `tid` that is blocked sending on the queue of iterator `it`:
+/// the iterator was dropped before it had returned None and EITHER that drop never returned (the
+/// dropping thread hangs on its own Exit send, or behind whoever does) OR the blocked thread is a
+/// reducer working on an action it took from the dispatch queue before the drop returned (it
+/// copied the subscriber list while the iterator was still in it).  A reducer that took the action
+/// after drop() had returned must not know the iterator any more: that is not F4.
+fn f4_signature(d: &Digest, tid: usize, it: usize) -> bool {
+    d.calls.iter().any(|x| {
+        if !matches!(x.op, OpK::DropIter { it: i } if i == it) || x.res == Some(Res::Skipped) {
+            return false;
+        }
+        if d.ev[..x.inv].iter().any(|e| matches!(&e.k, K::NextR { it: i, item: None } if *i == it)) {
+            return false;
+        }
+        let Some(ret) = x.ret else { return true };
+        match d.stores.iter().find(|sd| sd.rtid == Some(tid)) {
+            Some(sd) => {
+                let last_take = d.ev.iter().rposition(|e| e.tid == tid && matches!(&e.k, K::ChRecv { chan, .. } if Some(*chan) == sd.dchan));
+                last_take.map(|t| t < ret).unwrap_or(true)
+            }
+            None => false,
+        }
+    })
+}
+
 /// C13 on runs that did not complete
 pub fn c13(d: &Digest, out: &mut Vec<Violation>) {
     match d.run.out.end {
@@ -190,15 +215,9 @@ pub fn c13(d: &Digest, out: &mut Vec<Violation>) {
         let on = BlockOn::from(b.obj);
         for (it, ch) in &d.iter_chan {
             // F4: an iterator dropped before it returned None, somebody blocked sending on its queue
-            if on == BlockOn::ChanSend(*ch) {
-                let dropped_early = d.calls.iter().any(|c| {
-                    matches!(c.op, OpK::DropIter { it: i } if i == *it)
-                        && !d.ev[..c.inv].iter().any(|e| matches!(&e.k, K::NextR { it: i, item: None } if i == it))
-                });
-                if dropped_early {
-                    vk(out, "C13", "deadlock", format!("dropping an unexhausted iterator hung: {}", blocked.join("; ")), "F4");
-                    return;
-                }
+            if on == BlockOn::ChanSend(*ch) && f4_signature(d, b.tid, *it) {
+                vk(out, "C13", "deadlock", format!("dropping an unexhausted iterator hung: {}", blocked.join("; ")), "F4");
+                return;
             }
             // F7: next() on an iterator created while or after the store shut down
             if on == BlockOn::ChanRecv(*ch) {
@@ -289,13 +308,7 @@ fn c13_complete(d: &Digest, out: &mut Vec<Violation>) {
                 // finding F4, second face: the reducer is stuck sending to an iterator that was
                 // dropped before it was exhausted (its queue never disconnects)
                 let f4 = d.run.out.blocked.iter().any(|b| {
-                    d.iter_chan.iter().any(|(it, ch)| {
-                        BlockOn::from(b.obj) == BlockOn::ChanSend(*ch)
-                            && d.calls.iter().any(|x| {
-                                matches!(x.op, OpK::DropIter { it: i } if i == *it)
-                                    && !d.ev[..x.inv].iter().any(|e| matches!(&e.k, K::NextR { it: i, item: None } if i == it))
-                            })
-                    })
+                    d.iter_chan.iter().any(|(it, ch)| BlockOn::from(b.obj) == BlockOn::ChanSend(*ch) && f4_signature(d, b.tid, *it))
                 });
                 if f4 {
                     out.push(Violation { prop: "C13", clause: "stop-rescued-by-timeout", detail: format!("store {}: the reducer is blocked on the queue of a dropped iterator; stop() timed out", sd.idx), known: Some("F4") });
